@@ -42,6 +42,9 @@ pub(crate) struct Parser {
     ///
     /// A reference to one of these can be used before the input defining it is parsed.
     nested_names: HashSet<Name>,
+    /// The aliases of the input schemas and of the schemas nested inside them, with the name of
+    /// the schema they stand for.
+    alias_names: HashMap<Name, Name>,
     /// Set while the input schemas are parsed: a field default that cannot be checked yet,
     /// because the type of the field refers to a schema defined further on, is kept in
     /// `deferred_defaults` and checked when all input schemas are known.
@@ -56,8 +59,9 @@ impl Parser {
         parsed_schemas: Names,
     ) -> Self {
         let mut nested_names = HashSet::new();
+        let mut alias_names = HashMap::new();
         for value in input_schemas.values() {
-            Self::collect_nested_names(value, None, true, &mut nested_names);
+            Self::collect_nested_names(value, None, true, &mut nested_names, &mut alias_names);
         }
         Self {
             input_schemas,
@@ -65,6 +69,7 @@ impl Parser {
             input_order,
             parsed_schemas,
             nested_names,
+            alias_names,
             defer_defaults: false,
             deferred_defaults: Vec::new(),
         }
@@ -103,11 +108,12 @@ impl Parser {
         enclosing_namespace: NamespaceRef,
         top_level: bool,
         names: &mut HashSet<Name>,
+        aliases: &mut HashMap<Name, Name>,
     ) {
         match value {
             Value::Array(variants) => {
                 for variant in variants {
-                    Self::collect_nested_names(variant, enclosing_namespace, false, names);
+                    Self::collect_nested_names(variant, enclosing_namespace, false, names, aliases);
                 }
             }
             Value::Object(complex) => match complex.get("type") {
@@ -124,7 +130,19 @@ impl Parser {
                                     name.namespace(),
                                     false,
                                     names,
+                                    aliases,
                                 );
+                            }
+                        }
+                    }
+                    // The aliases of a named schema can be used to refer to it as well, also those
+                    // of the input schemas themselves (the inputs are only known by their names)
+                    if let Some(alias_list) = complex.aliases() {
+                        for alias in alias_list {
+                            if let Ok(alias) =
+                                Name::new_with_enclosing_namespace(alias, name.namespace())
+                            {
+                                aliases.insert(alias, name.clone());
                             }
                         }
                     }
@@ -134,16 +152,16 @@ impl Parser {
                 }
                 Some(Value::String(t)) if t == "array" => {
                     if let Some(items) = complex.get("items") {
-                        Self::collect_nested_names(items, enclosing_namespace, false, names);
+                        Self::collect_nested_names(items, enclosing_namespace, false, names, aliases);
                     }
                 }
                 Some(Value::String(t)) if t == "map" => {
                     if let Some(values) = complex.get("values") {
-                        Self::collect_nested_names(values, enclosing_namespace, false, names);
+                        Self::collect_nested_names(values, enclosing_namespace, false, names, aliases);
                     }
                 }
                 Some(inner @ (Value::Object(_) | Value::Array(_))) => {
-                    Self::collect_nested_names(inner, enclosing_namespace, false, names);
+                    Self::collect_nested_names(inner, enclosing_namespace, false, names, aliases);
                 }
                 _ => {}
             },
@@ -278,13 +296,20 @@ impl Parser {
 
         let fully_qualified_name = Name::new_with_enclosing_namespace(name, enclosing_namespace)?;
 
-        if self.parsed_schemas.contains_key(&fully_qualified_name) {
+        if let Some(parsed) = self.parsed_schemas.get(&fully_qualified_name) {
+            // Found under its name or under one of its aliases: the reference carries the name
+            // of the schema either way, like the reference to a schema that is being parsed
             return Ok(Schema::Ref {
-                name: fully_qualified_name,
+                name: parsed.name().cloned().unwrap_or(fully_qualified_name),
             });
         }
         if let Some(resolving_schema) = self.resolving_schemas.get(&fully_qualified_name) {
             return Ok(resolving_schema.clone());
+        }
+        if let Some(name) = self.alias_names.get(&fully_qualified_name) {
+            // An alias of an input schema that has not been parsed yet, or of a schema nested in
+            // one: the result is the same reference as when that input happens to be parsed first
+            return Ok(Schema::Ref { name: name.clone() });
         }
 
         if !self.input_schemas.contains_key(&fully_qualified_name)
